@@ -59,9 +59,9 @@ class Closure:
 class ArraySym:
     """a symbolic 1-d array: element j is the term name(j)"""
 
-    def __init__(self, name):
+    def __init__(self, name, positive=True):
         self.name = name
-        self.fn = sp.Function(name, positive=True)
+        self.fn = sp.Function(name, positive=True) if positive else sp.Function(name, nonnegative=True)
 
     def __getitem__(self, idx):
         return self.fn(idx)
